@@ -20,15 +20,16 @@ Record chunk := mkChunk { c_id : Z; c_start : Z; c_data : option (list (option c
   c_inv : Z; c_lsa : Z; c_lat : Z; c_size : Z; c_loading : Z }.
 Record bucket := mkBucket { b_step : Z; b_key : Z; b_chunks : list chunk; b_lat : Z; b_play : Z }.
 Record req := mkReq { r_id : Z; r_step : Z; r_key : Z; r_t0 : Z; r_data : list (option cell);
-  r_ls : Z; r_le : Z; r_wait : Z; r_err : bool; r_mode : Z; r_load : Z; r_chunks : list (Z * Z) }.
+  r_ls : Z; r_le : Z; r_wait : Z; r_err : bool; r_mode : Z; r_load : Z; r_chunks : list (Z * Z); r_gone : bool }.
 (* runtime info, water level part: [default mode; play mode] *)
 Record info := mkInfo { i_sz : Z * Z; i_bc : Z * Z; i_cs : Z * Z; i_cc : Z * Z }.
 Record st := mkSt { now : Z; bks : list bucket; limbo : list (Z * Z * chunk); reqs : list req; nextc : Z; nextl : Z;
   inf : info; minacc : Z; l_age : Z; l_max : Z; l_soft : Z; shut : bool; sig : bool;
-  armed : option Z; stuck : bool }.
+  armed : option Z; stuck : bool;
+  ipass : option (Z * list Z * Z * option Z) }.   (* invalidation pass in progress: shard step, chunk starts, time stamp, key of the bucket shard.invalidateIter points to *)
 
 Definition info0 := mkInfo (0,0) (0,0) (0,0) (0,0).
-Definition st0 := mkSt 0 [] [] [] 1 1 info0 0 0 0 0 false false None false.
+Definition st0 := mkSt 0 [] [] [] 1 1 info0 0 0 0 0 false false None false None.
 
 Definition mode (play : Z) : Z := if 0 <? play then 1 else 0.
 Definition addm (p : Z * Z) (m d : Z) : Z * Z := if m =? 0 then (fst p + d, snd p) else (fst p, snd p + d).
@@ -159,17 +160,17 @@ Fixpoint put_bucket (nb : bucket) (l : list bucket) : list bucket :=
 (* updateRuntimeInfoUnlocked: the trim goroutine is signalled when the soft limit is exceeded *)
 Definition signal_if (s : st) : st :=
   if negb (l_max s =? 0) && (l_soft s <? isize (inf s)) then
-    mkSt (now s) (bks s) (limbo s) (reqs s) (nextc s) (nextl s) (inf s) (minacc s) (l_age s) (l_max s) (l_soft s) (shut s) true (armed s) (stuck s)
+    mkSt (now s) (bks s) (limbo s) (reqs s) (nextc s) (nextl s) (inf s) (minacc s) (l_age s) (l_max s) (l_soft s) (shut s) true (armed s) (stuck s) (ipass s)
   else s.
 
 Definition set_core (s : st) (b : list bucket) (lb : list (Z * Z * chunk)) (r : list req) (nc nl : Z) (i : info) (m : Z) : st :=
-  mkSt (now s) b lb r nc nl i m (l_age s) (l_max s) (l_soft s) (shut s) (sig s) (armed s) (stuck s).
+  mkSt (now s) b lb r nc nl i m (l_age s) (l_max s) (l_soft s) (shut s) (sig s) (armed s) (stuck s) (ipass s).
 
 (* events: requests that returned in this step: (id, failed, cells of the requested range) *)
 Definition event := (Z * bool * list (option cell))%type.
 Definition ev_of (r : req) : event := (r_id r, r_err r, slice (r_data r) (r_ls r) (r_le r)).
 Definition finish_reqs (rs : list req) : list req * list event :=
-  (filter (fun r => 0 <? r_wait r) rs, map ev_of (filter (fun r => negb (0 <? r_wait r)) rs)).
+  (filter (fun r => 0 <? r_wait r) rs, map ev_of (filter (fun r => negb (0 <? r_wait r) && negb (r_gone r)) rs)).
 
 (* cache2.Get = newLoader + init + run, up to the point where the loader goroutine sits in the storage call *)
 Definition do_get (s : st) (rid step key from to play : Z) (force : bool) : st * list event :=
@@ -195,7 +196,7 @@ Definition do_get (s : st) (rid step key from to play : Z) (force : bool) : st *
   let i2 := mkInfo (i_sz i1) (i_bc i1) (addm (i_cs i1) md (ia_new a * CS)) (addm (i_cc i1) md (ia_new a)) in
   let hasload := negb (match ia_loads a with [] => true | _ => false end) in
   let r := mkReq rid step key first (ia_data a) ls le (ia_wait a + (if hasload then 1 else 0)) false md
-                 (if hasload then nextl s else 0) (ia_loads a) in
+                 (if hasload then nextl s else 0) (ia_loads a) false in
   let '(rs, evs) := finish_reqs (reqs s ++ [r]) in
   (signal_if (set_core s (put_bucket b' (bks s)) (limbo s) rs nc (if hasload then nextl s + 1 else nextl s) i2 (minacc s)), evs).
 
@@ -211,7 +212,7 @@ Definition deliver (ok : bool) (cd : list (option cell)) (rs : list req) (a : aw
   map (fun r => if r_id r =? a_req a then
                   mkReq (r_id r) (r_step r) (r_key r) (r_t0 r)
                         (if ok then write (r_data r) (Z.to_nat (a_ls a)) (slice cd (a_off a) (a_off a + (a_le a - a_ls a))) else r_data r)
-                        (r_ls r) (r_le r) (r_wait r - 1) (r_err r || negb ok) (r_mode r) (r_load r) (r_chunks r)
+                        (r_ls r) (r_le r) (r_wait r - 1) (r_err r || negb ok) (r_mode r) (r_load r) (r_chunks r) (r_gone r)
                 else r) rs.
 
 Fixpoint take_by_id (id : Z) (l : list chunk) : option chunk :=
@@ -269,7 +270,7 @@ Definition do_loaddone (s : st) (l : Z) (ok : bool) : st * list event :=
       let pend := p0 + zlen (r_chunks r0) * CS in
       let r1 := mkReq (r_id r0) (r_step r0) (r_key r0) (r_t0 r0)
                       (if ok then write (r_data r0) (Z.to_nat p0) (load_cells (r_step r0) (r_key r0) (r_t0 r0) l p0 pend) else r_data r0)
-                      (r_ls r0) (r_le r0) (r_wait r0 - 1) (r_err r0 || negb ok) (r_mode r0) 0 (r_chunks r0) in
+                      (r_ls r0) (r_le r0) (r_wait r0 - 1) (r_err r0 || negb ok) (r_mode r0) 0 (r_chunks r0) (r_gone r0) in
       let s1 := set_core s (bks s) (limbo s) (map (fun r => if r_id r =? r_id r0 then r1 else r) (reqs s))
                          (nextc s) (nextl s) (inf s) (minacc s) in
       let s2 := fold_left (post_chunk ok r1 n) (r_chunks r0) s1 in
@@ -279,13 +280,47 @@ Definition do_loaddone (s : st) (l : Z) (ok : bool) : st * list event :=
   | [] => (s, [])
   end.
 
-(* cache2.invalidate: chunk starts of the (sorted) times, then every bucket of the shard *)
+(* cache2Bucket.invalidate on the buckets selected by p *)
+Definition inval_where (p : bucket -> bool) (starts : list Z) (tI : Z) (l : list bucket) : list bucket :=
+  map (fun b => if p b then mkBucket (b_step b) (b_key b)
+                   (map (fun c : chunk => if existsb (Z.eqb (c_start c)) starts then ch_inval tI c else c) (b_chunks b)) (b_lat b) (b_play b)
+                else b) l.
+Definition set_bks (s : st) (b : list bucket) : st := set_core s b (limbo s) (reqs s) (nextc s) (nextl s) (inf s) (minacc s).
+Definition set_ipass (s : st) (v : option (Z * list Z * Z * option Z)) : st :=
+  mkSt (now s) (bks s) (limbo s) (reqs s) (nextc s) (nextl s) (inf s) (minacc s) (l_age s) (l_max s) (l_soft s) (shut s) (sig s) (armed s) (stuck s) v.
+
+(* cache2.invalidate as one step: chunk starts of the (sorted) times, then every bucket of the shard *)
 Definition do_invalidate (s : st) (step : Z) (times : list Z) : st :=
-  let starts := map (cstart step) times in
-  let inv_c := fun c : chunk => if existsb (Z.eqb (c_start c)) starts
-                 then ch_inval (now s) c else c in
-  set_core s (map (fun b => if b_step b =? step then mkBucket (b_step b) (b_key b) (map inv_c (b_chunks b)) (b_lat b) (b_play b) else b) (bks s))
-           (limbo s) (reqs s) (nextc s) (nextl s) (inf s) (minacc s).
+  set_bks s (inval_where (fun b => b_step b =? step) (map (cstart step) times) (now s) (bks s)).
+
+(* the same pass bucket by bucket (shard.invalidate releases the shard lock between buckets): the order is the
+   shard's bucket list (insertion order), shard.invalidateIter points to the next bucket *)
+Fixpoint first_key (step : Z) (l : list bucket) : option Z :=
+  match l with [] => None | b :: r => if b_step b =? step then Some (b_key b) else first_key step r end.
+Fixpoint next_key (step key : Z) (l : list bucket) : option Z :=
+  match l with [] => None | b :: r => if (b_step b =? step) && (b_key b =? key) then first_key step r else next_key step key r end.
+Definition inv_one (s : st) (step key : Z) (starts : list Z) (tI : Z) : st :=
+  set_ipass (set_bks s (inval_where (fun b => (b_step b =? step) && (b_key b =? key)) starts tI (bks s)))
+            (Some (step, starts, tI, next_key step key (bks s))).
+Definition do_inv_begin (s : st) (step : Z) (times : list Z) : st :=
+  match first_key step (bks s) with
+  | None => set_ipass s None
+  | Some k => inv_one s step k (map (cstart step) times) (now s)
+  end.
+Definition do_inv_next (s : st) : st :=
+  match ipass s with
+  | Some (step, starts, tI, Some k) => inv_one s step k starts tI
+  | _ => set_ipass s None
+  end.
+
+(* Get's context is cancelled: the call returns at once; the request stays to receive what it registered for *)
+Definition do_cancel (s : st) (rid : Z) : st * list event :=
+  if existsb (fun r => (r_id r =? rid) && negb (r_gone r)) (reqs s)
+  then (set_core s (bks s) (limbo s)
+          (map (fun r => if r_id r =? rid then mkReq (r_id r) (r_step r) (r_key r) (r_t0 r) (r_data r) (r_ls r) (r_le r) (r_wait r)
+                                                  (r_err r) (r_mode r) (r_load r) (r_chunks r) true else r) (reqs s))
+          (nextc s) (nextl s) (inf s) (minacc s), [(rid, true, [])])
+  else (s, []).
 
 (* removeChunksNotUsedAfterUnlocked: returns kept chunks, detached chunks, info, min access time of the kept ones *)
 Definition busy (c : chunk) : bool := (0 <? c_loading c) || negb (match c_aw c with [] => true | _ => false end).
@@ -338,7 +373,11 @@ Definition remove_bucket (s : st) (step key : Z) : st :=
     let i := inf s in
     let i' := mkInfo (addm (i_sz i) md (- sum_size (b_chunks b))) (addm (i_bc i) md (-1))
                      (addm (i_cs i) md (- (n * CS))) (addm (i_cc i) md (- n)) in
-    set_core s (drop_bucket step key (bks s)) (limbo s ++ map (fun c => (step, key, c)) det) (reqs s) (nextc s) (nextl s) i' (minacc s)
+    (* do not leave the invalidate iterator pointing to the removed bucket *)
+    let ip := match ipass s with
+              | Some (sp, starts, tI, Some k) => if (sp =? step) && (k =? key) then Some (sp, starts, tI, next_key step key (bks s)) else ipass s
+              | _ => ipass s end in
+    set_ipass (set_core s (drop_bucket step key (bks s)) (limbo s ++ map (fun c => (step, key, c)) det) (reqs s) (nextc s) (nextl s) i' (minacc s)) ip
   end.
 
 Definition do_reset (s : st) : st :=
@@ -390,7 +429,7 @@ Fixpoint reduce (fuel : nat) (s : st) : st :=
   end.
 
 Definition set_trim (s : st) (sg : bool) (ar : option Z) : st :=
-  mkSt (now s) (bks s) (limbo s) (reqs s) (nextc s) (nextl s) (inf s) (minacc s) (l_age s) (l_max s) (l_soft s) (shut s) sg ar (stuck s).
+  mkSt (now s) (bks s) (limbo s) (reqs s) (nextc s) (nextl s) (inf s) (minacc s) (l_age s) (l_max s) (l_soft s) (shut s) sg ar (stuck s) (ipass s).
 
 (* the trim goroutine, woken by a signal: loop iterations until it waits again *)
 Fixpoint trim_loop (fuel : nat) (s : st) : st :=
@@ -409,18 +448,18 @@ Definition do_setlimits (s : st) (age mx soft : Z) : st :=
   let '(mx', soft') := if mx <=? 0 then (0, 0) else if (soft <=? 0) || (mx <=? soft) then (mx, (4 * mx) / 5) else (mx, soft) in
   if shut s || ((l_age s =? age) && (l_max s =? mx') && (l_soft s =? soft')) then s
   else mkSt (now s) (bks s) (limbo s) (reqs s) (nextc s) (nextl s) (inf s) (minacc s) age mx' soft' (shut s)
-            (sig s || (soft' <? isize (inf s))) (armed s) (stuck s).
+            (sig s || (soft' <? isize (inf s))) (armed s) (stuck s) (ipass s).
 
 (* shutdown: the trim goroutine leaves its loop and runs reduceMemoryUsage once with zero limits *)
 Definition do_shutdown (s : st) : st :=
   if shut s then s else
-  let s1 := mkSt (now s) (bks s) (limbo s) (reqs s) (nextc s) (nextl s) (inf s) (minacc s) 0 0 0 true false None (stuck s) in
+  let s1 := mkSt (now s) (bks s) (limbo s) (reqs s) (nextc s) (nextl s) (inf s) (minacc s) 0 0 0 true false None (stuck s) (ipass s) in
   reduce (S (length (bks s1))) s1.
 
 Definition do_tick (s : st) (d : Z) : st :=
   let crossed := match armed s with Some t => t <=? now s + d | None => false end in
   mkSt (now s + d) (bks s) (limbo s) (reqs s) (nextc s) (nextl s) (inf s) (minacc s) (l_age s) (l_max s) (l_soft s) (shut s) (sig s)
-       (armed s) (stuck s || crossed || (d <? 0)).
+       (armed s) (stuck s || crossed || (d <? 0)) (ipass s).
 
 Inductive op :=
 | Tick (d : Z)
@@ -429,7 +468,10 @@ Inductive op :=
 | Invalidate (step : Z) (times : list Z)
 | Reset
 | SetLimits (age mx soft : Z)
-| Shutdown.
+| Shutdown
+| Cancel (rid : Z)
+| InvBegin (step : Z) (times : list Z)
+| InvNext.
 
 Definition step (s : st) (o : op) : st * list event :=
   match o with
@@ -440,6 +482,9 @@ Definition step (s : st) (o : op) : st * list event :=
   | Reset => (run_trim (do_reset s), [])
   | SetLimits a m so => (run_trim (do_setlimits s a m so), [])
   | Shutdown => (do_shutdown s, [])
+  | Cancel rid => do_cancel s rid
+  | InvBegin sp ts => (do_inv_begin s sp ts, [])
+  | InvNext => (do_inv_next s, [])
   end.
 
 Fixpoint run (s : st) (ops : list op) : st * list (list event) :=
